@@ -19,6 +19,7 @@
 package api
 
 import (
+	"bytes"
 	"encoding/json"
 	"fmt"
 	"sort"
@@ -59,6 +60,20 @@ type MetaMsg struct {
 	Base BaseTaskMsg            `json:"base"`
 	Type MetaMsgType            `json:"type"`
 	Data map[string]interface{} `json:"data"`
+}
+
+// UnmarshalJSON decodes numbers in Data as json.Number: the default float64 loses the low bits of
+// 64-bit values such as DropTS (hybrid timestamps are above 2^53).
+func (msg *MetaMsg) UnmarshalJSON(data []byte) error {
+	type plainMetaMsg MetaMsg
+	var plain plainMetaMsg
+	decoder := json.NewDecoder(bytes.NewReader(data))
+	decoder.UseNumber()
+	if err := decoder.Decode(&plain); err != nil {
+		return err
+	}
+	*msg = MetaMsg(plain)
+	return nil
 }
 
 func (msg MetaMsg) ToJSON() (string, error) {
